@@ -234,6 +234,5 @@ def parts(tier):
                 Part("enum-core8-depth5-6", "enum", _enum(6, (5,), core=True, min_depth=5), exhaustive=True),
                 Part("generated", "gen", strategy, n=2000)]
     return [Part("enum-depth5", "enum", _enum(5, (3, 4, 5)), exhaustive=True),
-            Part("enum-depth6-aw5", "enum", _enum(6, (5,)), exhaustive=True),
             Part("enum-core8-depth7", "enum", _enum(7, (4,), core=True, min_depth=7), exhaustive=True),
             Part("generated", "gen", strategy, n=100000)]
